@@ -80,14 +80,18 @@ def canonicalRename (p : Src.Prog) : Option Src.Prog :=
   else none
 
 def answer (p : Src.Prog) (version : Nat) (fp : Bool) : String :=
-  let inF := inFragmentR p && !fp
+  let inF := inFragmentC fp p
   let gen := match genProg version fp p with
     | .ok _ => "ok"
     | .error _ => "err"
   let ren := match canonicalRename p with
-    | some p' => inFragmentR p' && !fp
+    | some p' => inFragmentC fp p'
     | none => false
-  s!"fragmentR={showB inF} stage={stageOf p fp} reentersOk={showB (reentersOk p)} gen={gen} renamed={showB ren}"
+  -- stage 3 (partial: the range check of loads/stores is a permitted deviation), scratch convention
+  let dynp := match canonicalRename p with
+    | some p' => !fp && inFragmentC false p' true
+    | none => false
+  s!"fragmentR={showB inF} stage={stageOf p fp} reentersOk={showB (reentersOk p)} gen={gen} renamed={showB ren} dynPartial={showB dynp}"
 
 def fragmentrSexp : List String → String
   | ver :: fp :: rest =>
@@ -97,20 +101,26 @@ def fragmentrSexp : List String → String
     | _, none => "perr bad recipe"
   | _ => "perr usage: fragmentr-sexp VERSION FP SEXP"
 
+/-- diagnostics: which of the link checks fails -/
+def composedWhy (p : Src.Prog) (P : Avm.Program) (version : Nat) (fp : Bool) : String :=
+  match Check.renamedProg version fp p P, Check.validateProgCert version fp p P with
+  | .ok p', .ok (c, _) =>
+    let why := if Check.fragmentOnCert fp p' c then "" else
+      s!" mainOk={showB (mainOkC fp p')} pnodup={showB (nodupB (allParamSlots p'))} subs=" ++
+        " ".intercalate (p'.subs.map (fun sd =>
+          s!"[{sd.id}:has={showB (Check.certHas c sd.id)},ok={showB (subOkC fp p' sd)},wt={showB (wtR (subK fp p' sd) false true (if sd.hasRet then 1 else 0) sd.body)}]"))
+    s!"{why} fragment={showB (Check.fragmentOnCert fp p' c)} main={showB (Check.certMainOk version p' c)} subs={showB (Check.certSubsOk version fp p' c)} closed={showB (Check.certClosed c)}"
+  | _, _ => ""
+
+/-- `composed=true`: hypotheses of `compile_correct_validated_prog`; `composed=partial`: those of
+    `compile_correct_validated_prog_dyn_partial` (run-time addressed slots, scratch convention) -/
 def composedAnswer (p : Src.Prog) (P : Avm.Program) (version : Nat) (fp : Bool) : String :=
-  if fp then "composed=false frame-pointer convention" else
-  match Check.validateComposed version p P with
+  match Check.validateComposed version fp p P with
   | .ok true => "composed=true"
   | .ok false =>
-    -- which of the checks fails (diagnostics only)
-    (match Check.renamedProg version false p P, Check.validateProgCert version false p P with
-     | .ok p', .ok (c, _) =>
-       let why := if Check.fragmentOnCert p' c then "" else
-         s!" mainOk={showB (mainOk p')} ids={showB (nodupB (p'.subs.map (·.id)))} subs=" ++
-           " ".intercalate (p'.subs.map (fun sd =>
-             s!"[{sd.id}:wt={showB (wtR ⟨Comp.calleesOf p', sd.hasRet⟩ false true (if sd.hasRet then 1 else 0) sd.body)},par={showB (sd.params.all (fun kv => kv.1 == .val && decide (kv.2 < 256)))},pnd={showB (nodupB (sd.params.map (·.2)))},loc={showB (sd.locals.all (fun v => decide (v < 256)))},snd={showB (nodupB (spillSlots sd))},ss={showB (sameSet (spillSlots sd) sd.locals)}]"))
-       s!"composed=false{why} fragment={showB (Check.fragmentOnCert p' c)} main={showB (Check.certMainOk version p' c)} subs={showB (Check.certSubsOk version p' c)} closed={showB (Check.certClosed c)}"
-     | _, _ => "composed=false")
+    (match (if fp then (.ok false : Except String Bool) else Check.validateComposed version false p P true) with
+     | .ok true => "composed=partial"
+     | _ => "composed=false" ++ composedWhy p P version fp)
   | .error e => "composed=false " ++ (e.replace "\n" " ")
 
 def composedSexp : List String → String
